@@ -70,7 +70,8 @@ Fixpoint index_completeb (es : list entry) (l : list sbatch) : bool :=
 Definition index_wfb (log : list sbatch) (es : list entry) : bool :=
   forallb (fun e => let '(p, f, m) := e in
     (f <? m) &&
-    existsb (fun s => match s with SBatch b => (rb_first b =? f) && negb (rb_control b) && rb_txn b && (rb_pid b =? p) | _ => false end) log &&
+    ((f <? log_start log) ||
+     existsb (fun s => match s with SBatch b => (rb_first b =? f) && negb (rb_control b) && rb_txn b && (rb_pid b =? p) | _ => false end) log) &&
     existsb (fun s => match s with SBatch b => (rb_first b =? m) && (rb_pid b =? p) &&
                                               match marker_of b with Some 0 => true | _ => false end | _ => false end) log &&
     forallb (fun s => match s with
@@ -96,7 +97,9 @@ Record pstep := {
   ps_verdict : verdict; ps_errs : list Z }.
 (* pc_exact = false: the script contains a batch larger than Consumer.Fetch.Max (outside the hypotheses of
    c03_parse_exact: the code reports ErrMessageTooLarge and steps over one offset); only model = code is compared *)
-Record pcase := { pc_cfg : cfg; pc_log : list sbatch; pc_start : pstate; pc_exact : bool; pc_steps : list pstep }.
+(* pc_open: transactions (producer id, original first offset) open at the start of the log, when its head was
+   deleted in the middle of them *)
+Record pcase := { pc_cfg : cfg; pc_log : list sbatch; pc_open : list (Z * Z); pc_start : pstate; pc_exact : bool; pc_steps : list pstep }.
 
 Definition slice (log : list sbatch) (i j : nat) : list sbatch := firstn (j - i) (skipn i log).
 
@@ -135,7 +138,7 @@ Fixpoint run_steps (c : cfg) (log : list sbatch) (es : list entry) (s : pstate) 
 
 Definition ok_parse (a : pcase) : bool :=
   let log := pc_log a in
-  let es := aborted_txns [] log in
+  let es := aborted_txns (pc_open a) log in
   let '(okr, s2, out) := run_steps (pc_cfg a) log es (pc_start a) (pc_steps a) in
   wf_logb log && index_wfb log es && index_completeb es log && okr &&
   (* the theorem's conclusion on this run *)
